@@ -364,6 +364,17 @@ def nakSpline (xs : List Rat) (rows : List (List Rat)) (dim : Nat) (xnew : List 
       if cols.any (fun col => (nakMoments sx col).isNone) then .error .solver
       else .ok (xnew.map (fun x => cols.map (fun col => nakAt sx col ((nakMoments sx col).getD []) x)))
 
+/-- the not-a-knot spline through `(sx i, col i)` (sorted) at one abscissa -/
+def nakValue (sx col : List Rat) (x : Rat) : Option Rat :=
+  (nakMoments sx col).map (fun ms => nakAt sx col ms x)
+
+/-- `spatial_interpolation.rect_bivariate_spline` = SciPy `RectBivariateSpline` (degree 3 × 3, interpolating) —
+specification: the tensor product of not-a-knot splines: along `x` on every grid row, then along `y` through the
+row values.  `grid[k][i]` is the value at `(xs[i], ys[k])`, both axes increasing. -/
+def bicubicAt (xs ys : List Rat) (grid : List (List Rat)) (x y : Rat) : Option Rat :=
+  let vals := grid.map (fun row => nakValue xs row x)
+  if vals.any (·.isNone) then none else nakValue ys (vals.map (·.getD 0)) y
+
 /-- `interpolate_with_derivative(x, y, x_new, kind=…, dx=dx)` for any interpolator `f` (the function of `x_new`
 the registered interpolator returns): values `f(x_new)`, derivative `(f(x_new + dx) - f(x_new - dx)) / (2 dx)`,
 evaluated in this order -/
